@@ -12,10 +12,24 @@ Transport flows (run_dflow): the authorization request reaches the provider as a
 carries its own (same / different / partial) code_challenge + code_challenge_method next to it.  Model: delivery /
 assembled / flow_d / recorded_d of Model/Pkce.v; oracle: the pair of the protected request (ref_request_pair) decides
 which verifier must be accepted / refused, and the pair recorded in the grant of the code is observed directly.
+
+Interactive flows (run_iflow): providers whose authentication method shows a LOG-IN PAGE (UserPassJinja2 with the signed
+token in the form, and an own UserAuthnMethod subclass that writes a plain form).  The authorization request (any
+transport) is parsed, process_request answers with the page, the application rebuilds the request from the page's
+`query` exactly as example/flask_op/views.py::verify does (request_cls().from_urlencoded(query) -> create_session ->
+authz_part2), and the code minted THEN is redeemed with the right / a wrong / no verifier.  Histories: the form posted
+twice, the page answered hours later, re-authentication (prompt=login, max_age exceeded) of a browser that has a session
+for another challenge, two pages answered in the reverse order, cookie SSO on the same providers.  Model: resume /
+recorded_i / flow_i of Model/Pkce.v (the query goes through the urllib model of Lib/Qs.v); oracle: the grant of the code
+records the pair of the request that led to the page, and only its verifier redeems the code.
 """
 import base64
 import hashlib
+import html
 import json
+import re
+import time
+import urllib.parse
 
 import engine as E
 from engine import coq_str, coq_list, coq_bool, coq_n, coq_opt
@@ -37,7 +51,17 @@ RULE = ("flows through the real authorization+token endpoints of 9 providers (co
         "challenge under 'plain' / an unsupported method) x the protected request with both, one or none of the two "
         "parameters x verifier of the protected challenge / of the front-channel challenge / the challenge itself / "
         "none, on all 9 providers; the pair recorded in the grant of the code is observed as well; the library's RP "
-        "pair sent through every transport with a foreign challenge on the front channel; random transport flows.")
+        "pair sent through every transport with a foreign challenge on the front channel; random transport flows.  "
+        "(7) INTERACTIVE AUTHENTICATION: 7 providers whose authentication method answers with a log-in page (UserPassJinja2 "
+        "with the request in the signed token of the form / an own method writing an unsigned form; essential on and off, "
+        "OIDC and OAuth2): authorization request through every transport -> page -> request rebuilt from the page's query "
+        "the way example/flask_op does -> create_session -> authz_part2 -> token request with the right / a one-character-"
+        "off / another flow's / no verifier / the challenge under 'plain', for every configured method, default method, no "
+        "challenge, unsupported method, challenges containing the characters the query encoding treats specially (&, =, %, "
+        "+, space, non-ASCII, an injected '&code_challenge_method=plain'); histories: form posted twice (both codes), page "
+        "answered 2 h later, prompt=login and max_age exceeded for a browser whose session belongs to ANOTHER challenge, two "
+        "pending pages answered in reverse order, cookie SSO without a page; the library's RP pair through the page; random "
+        "interactive flows.  Observed: the pair in the page's query, the pair in the grant of the code, the outcome.")
 ASSUMPTIONS = [
     "HB bits v = b64url_nopad(sha<bits>(ascii v)) is an arbitrary function in C15_bound/_essential/_no_downgrade; "
     "C15_near_miss_refused assumes it injective (collision-free hash), C15_rp_op_agree assumes its output non-empty",
@@ -47,6 +71,9 @@ ASSUMPTIONS = [
     "pushes with valid client credentials: whether an object / a push is authentic is C16's subject; C15 fixes which of "
     "the transported PKCE pairs binds the code (the protected one; a request_uri document lets front-channel "
     "parameters fill what it does not carry, C16's 'override same-named' rule)",
+    "interactive flows: the application that answers the log-in page is the one of example/flask_op/views.py::verify "
+    "(request_cls().from_urlencoded(query of the page) -> create_session -> authz_part2); whether the page's token is "
+    "authentic and the user's password right is not C15's subject; urllib's quoting is Lib/Qs.v (validated by C10)",
 ]
 
 PKCE_FN = "idpyoidc.server.oauth2.add_on.pkce.add_support"
@@ -124,11 +151,11 @@ def with_pair(d, pair):
 
 # ---------------------------------------------------------------- providers
 class Prov:
-    def __init__(self, srv, methods, essential, oidc):
+    def __init__(self, srv, methods, essential, oidc, extra=None):
         kw = {"essential": essential}
         if methods is not None:
             kw["code_challenge_methods"] = {m: m for m in methods}
-        self.server = srv.make_server(add_ons={"pkce": {"function": PKCE_FN, "kwargs": kw}}, oidc=oidc)
+        self.server = srv.make_server(add_ons={"pkce": {"function": PKCE_FN, "kwargs": kw}}, oidc=oidc, extra=extra)
         self.methods = list(methods) if methods is not None else list(ALL)
         self.essential = essential
         self.oidc = oidc
@@ -139,6 +166,9 @@ class Prov:
         conf = self.server.context.add_on["pkce"]
         self.methods = list(conf["code_challenge_methods"].keys())
         self.essential = bool(conf["essential"])
+
+    def describe(self):
+        return {"methods": self.methods, "essential": self.essential, "oidc": self.oidc}
 
     def set_client_flag(self, ce):
         rec = self.server.context.cdb["client_1"]
@@ -178,11 +208,17 @@ class Prov:
             res = self.az.process_request(pr, http_info={"cookie": ck} if ck else None)
         except Exception as e:
             return ("AzRaised", type(e).__name__)
+        if isinstance(res, dict) and "http_response" in res and "response_args" not in res:
+            return self.login_page(pr, res)
         self.last_cookie = res.get("cookie") if isinstance(res, dict) else None
         ra = res.get("response_args") if isinstance(res, dict) else None
         if ra is None or "code" not in ra:
             return ("AzRefused", 0)
         return ("code", ra["code"])
+
+    def login_page(self, parsed, res):
+        """process_request answered with a page instead of a code (providers with silent authentication never do)"""
+        return ("AzRefused", 0)
 
     # ---- transports of the authorization request (request object by value / by reference, PAR)
     BASE = {"client_id": "client_1", "redirect_uri": "https://client_1.example.com/cb", "scope": "openid",
@@ -210,8 +246,8 @@ class Prov:
         returns ('code', code) | ('AzRefused', n) | ('AzRaised', name); a refused / failing PUSH is ('AzRefused', 97)"""
         self.enable_transports()
         self.n += 1
-        self.cookie_in = None
-        if self.n % 200 == 0:
+        self.cookie_in = getattr(self, "cookie_next", None)
+        if self.n % 200 == 0 and self.cookie_in is None and not getattr(self, "pending", None):
             self.server.context.session_manager.flush()
         t = d["t"]
         alg = d.get("alg", "RS256")
@@ -444,11 +480,17 @@ def run_dflow(ctx, prov, ce, d, cv, tccm, kind, dcases, note=None, token_req=Non
         out = prov.token_req(dict(token_req, code=a[1])) if token_req is not None else prov.token(a[1], cv, tccm)
     else:
         out = a
-    rec = {"kind": kind, "provider": {"methods": prov.methods, "essential": prov.essential, "oidc": prov.oidc},
+    return record_dflow(ctx, prov, ce, d, cv, tccm, kind, dcases, out, obs, note)
+
+
+def record_dflow(ctx, prov, ce, d, cv, tccm, kind, dcases, out, obs, note=None, more=None):
+    rec = {"kind": kind, "provider": prov.describe(),
            "pkce_essential": ce, "delivery": d, "code_verifier": cv, "token_code_challenge_method": tccm,
            "recorded_in_grant": list(obs) if obs is not None else None, "outcome": list(out)}
     if note:
         rec["note"] = note
+    if more:
+        rec.update(more)
     eff = ref_request_pair(d)
     prot = ref_protected(d)
     essential = ce if ce is not None else prov.essential
@@ -501,6 +543,295 @@ def oracle_transport(ctx, prov, rec, d, prot, eff, cv, out, obs):
         ctx.violation("protected-pair-refused",
                       "transport %s: the protected request carries (%r, %r), the token request the matching verifier, "
                       "yet the outcome is %r (front channel carried %r)" % (d["t"], prot[0], prot[1], out, front), rec)
+
+
+# ---------------------------------------------------------------- interactive authentication: the log-in page
+USER, PASSWORD = "diana", "krall"
+
+
+class FormTemplate:
+    """template handler of UserPassJinja2 reduced to what matters: a form with the hidden, signed token"""
+
+    def render(self, template, **kwargs):
+        return ('<form action="%s" method="post"><input type="hidden" name="token" value="%s">'
+                '<input name="username"><input name="password" type="password"></form>'
+                % (html.escape(str(kwargs.get("action", "")), quote=True), html.escape(kwargs["token"], quote=True)))
+
+
+def _page_authn_class():
+    from idpyoidc.server.exception import FailedAuthentication
+    from idpyoidc.server.user_authn.user import UserAuthnMethod
+
+    class PageAuthn(UserAuthnMethod):
+        """An authentication method of the harness: the log-in page is a plain form, every argument
+        process_request hands over (query, authn_class_ref, return_uri ...) travels in a hidden field of its own."""
+        url_endpoint = "/verify/page"
+
+        def __init__(self, db, upstream_get=None, **kwargs):
+            UserAuthnMethod.__init__(self, upstream_get=upstream_get, **kwargs)
+            self.user_db = dict(db)
+
+        def __call__(self, **kwargs):
+            fields = "".join('<input type="hidden" name="%s" value="%s">'
+                             % (html.escape(k, quote=True), html.escape(v if isinstance(v, str) else json.dumps(v), quote=True))
+                             for k, v in kwargs.items())
+            return ('<form action="%s" method="post">%s<input name="username"><input name="password" type="password">'
+                    '</form>' % (self.url_endpoint, fields))
+
+        def verify(self, *args, **kwargs):
+            if self.user_db.get(kwargs.get("username")) == kwargs.get("password"):
+                return kwargs["username"]
+            raise FailedAuthentication()
+
+    return PageAuthn
+
+
+_HIDDEN = re.compile(r'<input type="hidden" name="([^"]*)" value="([^"]*)">')
+# parameters of the request the model is told about next to the PKCE pair (everything else the request may hold - the
+# request object itself, what the provider attached while parsing - has no say in the model: C15_resumed_others_irrelevant)
+OTHERS = ("client_id", "redirect_uri", "scope", "state", "response_type", "prompt", "max_age", "nonce", "request_uri")
+
+
+class IProv(Prov):
+    """provider whose only authentication method shows a log-in page"""
+
+    def __init__(self, srv, methods, essential, oidc, login):
+        from idpyoidc.server.user_authn.authn_context import INTERNETPROTOCOLPASSWORD
+        self.login = login
+        if login == "jinja":
+            authn = {"class": "idpyoidc.server.user_authn.user.UserPassJinja2",
+                     "kwargs": {"db": {"class": dict, "kwargs": {USER: PASSWORD}}, "template_handler": FormTemplate(),
+                                "verify_endpoint": "verify/user"}}
+        else:
+            authn = {"class": _page_authn_class(), "kwargs": {"db": {USER: PASSWORD}}}
+        Prov.__init__(self, srv, methods, essential, oidc,
+                      extra={"authentication": {"user": dict(authn, acr=INTERNETPROTOCOLPASSWORD)}})
+        self.method = self.server.context.authn_broker.get_method_by_id("user")
+        self.pending = []
+        self.hold = False
+        self.cookie_next = None
+        cp = self.az.request_cls.c_param
+        self.lists = sorted(k for k, spec in cp.items() if isinstance(spec[0], list))
+        self.declares_pkce = [k for k in ("code_challenge", "code_challenge_method") if k in cp]
+
+    def describe(self):
+        return dict(Prov.describe(self), login=self.login)
+
+    # -- first half: the authorization request arrives; the answer may be the log-in page
+    def begin(self, d, state, extra=None, cookie=None, hold=True):
+        """('page', handle) | ('code', code) | ('AzRefused', n) | ('AzRaised', name)"""
+        self.BASE = dict(Prov.BASE, **(extra or {}))
+        self.cookie_next = cookie
+        self.hold = hold
+        try:
+            return self.deliver(d, state=state)
+        finally:
+            self.cookie_next = None
+            self.__dict__.pop("BASE", None)
+
+    def login_page(self, parsed, res):
+        h = {"page": res["http_response"], "others": self.render_others(parsed)}
+        self.pending.append(h)
+        return ("page", h) if self.hold else self.finish(h)
+
+    def render_others(self, parsed):
+        res = []
+        for k in OTHERS:
+            if k not in parsed:
+                continue
+            v = parsed[k]
+            if isinstance(v, str):
+                res.append((k, "S", v))
+            elif isinstance(v, bool):
+                continue
+            elif isinstance(v, int):
+                res.append((k, "S", str(v)))
+            elif isinstance(v, list) and all(isinstance(x, str) for x in v):
+                res.append((k, "L", list(v)))
+        return res
+
+    # -- second half: the user posts the form; the application of example/flask_op/views.py::verify
+    def read_page(self, page):
+        fields = {k: html.unescape(v) for k, v in _HIDDEN.findall(page)}
+        if self.login == "jinja":
+            token = fields["token"]
+            username = self.method.verify(username=USER, password=PASSWORD, token=token)
+            return username, dict(self.method.unpack_token(token))
+        username = self.method.verify(username=USER, password=PASSWORD)
+        return username, fields
+
+    def finish(self, h):
+        """('code', code) | ('AzRefused', n) | ('AzRaised', name); h['query'] is the query the page carried"""
+        if h in self.pending:
+            self.pending.remove(h)
+        try:
+            username, auth_args = self.read_page(h["page"])
+            h["query"] = auth_args["query"]
+            authz_request = self.az.request_cls().from_urlencoded(auth_args["query"])
+            sid = self.az.create_session(authz_request, username, auth_args["authn_class_ref"],
+                                         auth_args.get("iat", 0), self.method)
+            args = self.az.authz_part2(request=authz_request, session_id=sid)
+        except Exception as e:
+            return ("AzRaised", type(e).__name__)
+        self.last_cookie = args.get("cookie") if isinstance(args, dict) else None
+        ra = args.get("response_args") if isinstance(args, dict) else None
+        if ra is None or "code" not in ra:
+            return ("AzRefused", 0)
+        return ("code", ra["code"])
+
+
+def query_pair(q):
+    """the PKCE pair a query string carries, read with urllib (not with the library)"""
+    if q is None:
+        return None
+    d = urllib.parse.parse_qs(q, keep_blank_values=True)
+    one = lambda k: (d[k][0] if len(d[k]) == 1 else d[k]) if k in d else None
+    return (one("code_challenge"), one("code_challenge_method"))
+
+
+def coq_opt_pk(p):
+    if p is None:
+        return "(@None pk)"
+    return "(Some (%s, %s))" % (s_opt(p[0] if isinstance(p[0], str) else None if p[0] is None else json.dumps(p[0])),
+                                 s_opt(p[1] if isinstance(p[1], str) else None if p[1] is None else json.dumps(p[1])))
+
+
+def coq_others(others):
+    rows = []
+    for k, kind, v in others:
+        val = "(PvS %s)" % coq_str(v) if kind == "S" else "(PvL %s)" % coq_list([coq_str(x) for x in v], "pystr")
+        rows.append("(%s, %s)" % (coq_str(k), val))
+    return coq_list(rows, "(pystr * pval)")
+
+
+HOWS = ("login", "twice", "late", "relogin", "maxage", "swap")
+EARLIER_V = "earlier-log-in-of-this-browser-0123456789-abcdefg"
+SWAP_V = "the-other-pending-page-0123456789-abcdefghijklmnop"
+
+
+def run_iflow(ctx, prov, ce, d, how, cv, tccm, kind, icases, dcases, note=None, token_req=None, state=None):
+    """One interactive flow, self-contained (the history `how` asks for is produced here):
+       login   request -> page -> post -> code
+       twice   ... the form is posted twice: two codes, each redeemed
+       late    ... the form is posted two hours after the page was shown
+       relogin the browser has a session from an EARLIER log-in for another authorization request (another challenge);
+               this request says prompt=login
+       maxage  ... this request says max_age=10 and the earlier log-in is 100 s old
+       swap    a second request (another challenge) gets its page while this one is pending and is answered first
+       sso     the browser has a session, nothing asks for re-authentication: no page (recorded as a transport flow)"""
+    prov.set_client_flag(ce)
+    clock = prov.clock
+    if prov.n % 150 > 140 and not prov.pending:
+        prov.server.context.session_manager.flush()
+    cookie, extra = None, {}
+    m0 = prov.methods[0]
+    if how in ("relogin", "maxage", "sso"):
+        prov.set_client_flag(None)
+        a0 = prov.begin({"t": "front", "front": [ref_tr(m0, EARLIER_V), m0]}, "EARLIER%d" % prov.n, hold=False)
+        prov.set_client_flag(ce)
+        cookie = getattr(prov, "last_cookie", None)
+        if a0[0] != "code" or not cookie:
+            ctx.notes.append("interactive %s: the earlier log-in produced no session cookie (%r)" % (how, a0))
+            ctx.count("interactive:no-earlier-session")
+            return None
+        if how == "relogin":
+            extra = {"prompt": ["login"]}
+        elif how == "maxage":
+            extra = {"max_age": 10}
+            clock.tick(100)
+    a = prov.begin(d, state or "ST%d" % prov.n, extra=extra, cookie=cookie, hold=True)
+    shown = a[0] == "page"
+    results = []
+    if shown:
+        h = a[1]
+        if how == "late":
+            clock.tick(7200)
+        if how == "swap":
+            b = prov.begin({"t": "front", "front": [ref_tr(m0, SWAP_V), m0]}, "SWAP%d" % prov.n, hold=True)
+            if b[0] == "page":
+                prov.finish(b[1])
+        results.append(prov.finish(h))
+        if how == "twice":
+            results.append(prov.finish(h))
+    else:
+        h = None
+        results.append(a)
+    out = None
+    for i, r in enumerate(results):
+        obs = None
+        if r[0] == "code":
+            obs = prov.recorded(r[1])
+            out = prov.token_req(dict(token_req, code=r[1])) if token_req is not None else prov.token(r[1], cv, tccm)
+        else:
+            out = r
+        inter = {"how": how, "page_shown": shown, "post": i + 1, "extra": extra}
+        if not shown:
+            # no page: an ordinary (transport) flow on a provider that could have asked; model flow_d
+            ctx.count("interactive:no-page:" + how)
+            if how in ("relogin", "maxage") and r[0] == "code":
+                ctx.notes.append("interactive %s: re-authentication was asked for but no log-in page was shown" % how)
+            record_dflow(ctx, prov, ce, d, cv, tccm, kind, dcases, out, obs, note, more={"interactive": inter})
+            continue
+        record_iflow(ctx, prov, ce, d, cv, tccm, kind, icases, out, obs, h, inter, note)
+    return out
+
+
+def record_iflow(ctx, prov, ce, d, cv, tccm, kind, icases, out, obs, h, inter, note=None):
+    qp = query_pair(h.get("query"))
+    rec = {"kind": kind, "provider": prov.describe(), "interactive": inter,
+           "pkce_essential": ce, "delivery": d, "code_verifier": cv, "token_code_challenge_method": tccm,
+           "query_of_login_page": h.get("query"), "recorded_in_grant": list(obs) if obs is not None else None,
+           "outcome": list(out)}
+    if note:
+        rec["note"] = note
+    eff = ref_request_pair(d)
+    prot = ref_protected(d)
+    essential = ce if ce is not None else prov.essential
+    ctx.case_seen(rec, nontrivial=True)
+    ctx.count("kind:" + kind)
+    ctx.count("interactive:" + inter["how"])
+    ctx.count("interactive-transport:" + d["t"])
+    ctx.count("interactive-login:" + prov.login)
+    ctx.count("out:" + out[0] + (str(out[1]) if len(out) > 1 else ""))
+    oracle(ctx, prov, dict(rec, code_challenge=eff[0], code_challenge_method=eff[1]), out, eff[0] is not None, essential)
+    oracle_transport(ctx, prov, rec, d, prot, eff, cv, out, obs)
+    oracle_resume(ctx, prov, rec, d, eff, cv, out, obs)
+    obs_r = None
+    if out[0] in ("Tokens", "TkRefused", "TkRaised") and obs is not None:
+        obs_r = (nz(obs[0]) if not isinstance(obs[0], list) else obs[0], nz(obs[1]) if not isinstance(obs[1], list) else obs[1])
+    term = "(%s, %s, %s, %s, %s, %s, %s, %s, %s, %s, %s, %s)" % (
+        coq_list([coq_str(m) for m in prov.methods], "pystr"), coq_bool(prov.essential), b_opt(ce),
+        coq_delivery(d), coq_list([coq_str(x) for x in prov.lists], "pystr"), coq_others(h["others"]),
+        s_opt(cv), s_opt(tccm), hb_table([cv]), coq_outcome(out), coq_opt_pk(qp), coq_opt_pk(obs_r))
+    icases.append((term, rec))
+
+
+def oracle_resume(ctx, prov, rec, d, eff, cv, out, obs):
+    """The property text on a flow that went through the log-in page: the challenge recorded for the code is the one
+    of the authorization request that led to it, under that request's method (the default when it named none), and
+    its verifier redeems the code.  No model, no query parsing: request sent -> grant looked at -> token answer."""
+    got_code = out[0] in ("Tokens", "TkRefused", "TkRaised")
+    if not got_code:
+        return
+    how = rec["interactive"]["how"]
+    if eff[0] is not None:
+        if obs is None or obs[0] != eff[0]:
+            ctx.violation("resumed-challenge-not-recorded",
+                          "log-in page (%s, %s): the authorization request carried code_challenge=%r but the grant of the "
+                          "code minted after the log-in records %r" % (prov.login, how, eff[0], obs and obs[0]), rec)
+        want_m = eff[1] if eff[1] is not None else "plain"
+        if obs is None or obs[1] != want_m:
+            ctx.violation("resumed-method-not-recorded",
+                          "log-in page (%s, %s): the authorization request named code_challenge_method=%r (-> %r) but the "
+                          "grant of the code minted after the log-in records %r" % (prov.login, how, eff[1], want_m, obs and obs[1]), rec)
+        if (want_m in prov.methods and nz(cv) is not None and ref_tr(want_m, cv) == eff[0] and out[0] != "Tokens"):
+            ctx.violation("resumed-pair-refused",
+                          "log-in page (%s, %s): the request carried (%r, %r), the token request the matching verifier, "
+                          "yet the outcome is %r" % (prov.login, how, eff[0], eff[1], out), rec)
+    elif obs is not None and nz(obs[0]) is not None:
+        ctx.violation("resumed-challenge-of-another-request",
+                      "log-in page (%s, %s): the authorization request carried no code_challenge but the grant of its code "
+                      "records %r" % (prov.login, how, obs[0]), rec)
 
 
 # ---------------------------------------------------------------- generators
@@ -906,6 +1237,220 @@ def rp_transport_cases(ctx, provs, rng, dcases):
                 run_dflow(ctx, prov, None, d, vB, None, "rp-transport-foreign-verifier", dcases)
 
 
+# ---------------------------------------------------------------- interactive generators
+SPECIALS = ["a b+c/d=e&f%41g", "X&code_challenge_method=plain", "%26amp;&#38;<\"q\">'", "käse-λ-€&=+ %", "+++===&&&%%%   "]
+
+
+def near_miss1(rng, v):
+    i = rng.randrange(len(v))
+    return v[:i] + rng.choice([x for x in UNRES if x != v[i]]) + v[i + 1:]
+
+
+def idelivery(rng, prov, t, prot, front=(None, None)):
+    if t == "front":
+        return {"t": "front", "front": list(prot)}
+    return mk_delivery(rng, prov, t, prot, front)
+
+
+def interactive_matrix(ctx, iprovs, rng, icases, dcases):
+    """transport x method x pair shape x verifier, every interactive provider; the histories rotate over the flows"""
+    N = (None, None)
+    k = 0
+    for prov in iprovs:
+        for t in ("front",) + TRANSPORTS:
+            for m in prov.methods:
+                vA = rstr(rng, rng.choice([43, 64, 128]))
+                A = ref_tr(m, vA)
+                for cv in (vA, near_miss1(rng, vA), None):
+                    k += 1
+                    run_iflow(ctx, prov, rng.choice([None, None, True, False]), idelivery(rng, prov, t, (A, m)),
+                              HOWS[k % len(HOWS)], cv, None, "interactive:pair", icases, dcases)
+            m = rng.choice(prov.methods)
+            vA, vB = rstr(rng, 43), rstr(rng, 43)
+            A, B = ref_tr(m, vA), ref_tr(m, vB)
+            sp = rng.choice(SPECIALS) + rstr(rng, 6)
+            spm = "plain" if "plain" in prov.methods else m
+            combos = [
+                ("no-method", (vA, None), N, [(vA, None), (None, None)]),
+                ("no-challenge", N, N, [(None, None)]),
+                ("method-only", (None, m), N, [(None, None)]),
+                ("unsupported-method", (A, "S1"), N, [(vA, None)]),
+                ("special-characters", (sp, spm), N, [(sp, None), (None, None), (sp.split("&")[0], None)]),
+                ("downgrade-plain", (A, m), N, [(A, "plain")]),
+            ]
+            if t != "front":
+                combos += [
+                    ("front-other-challenge", (A, m), (B, m), [(vA, None), (vB, None)]),
+                    ("front-same-challenge-plain", (A, m), (A, "plain"), [(A, None)]),
+                    ("protected-none", N, (B, m), [(vB, None), (None, None)]),
+                ]
+            for name, prot, front, toks in combos:
+                for cv, tccm in toks:
+                    k += 1
+                    run_iflow(ctx, prov, rng.choice([None, None, True, False]), idelivery(rng, prov, t, prot, front),
+                              HOWS[k % len(HOWS)], cv, tccm, "interactive:" + name, icases, dcases,
+                              state=("S &=%%+t%d" % k) if name == "special-characters" else None)
+
+
+def interactive_histories(ctx, iprovs, rng, icases, dcases):
+    """every history on every provider, with the verifier that belongs to the OTHER request of that history"""
+    for prov in iprovs:
+        m = prov.methods[0]          # the method of the earlier / other request of the history as well
+        for how in HOWS + ("sso",):
+            for t in ("front", rng.choice(TRANSPORTS)):
+                vA = rstr(rng, 43)
+                A = ref_tr(m, vA)
+                other = SWAP_V if how == "swap" else EARLIER_V if how in ("relogin", "maxage", "sso") else rstr(rng, 43)
+                for cv in (vA, other, None):
+                    run_iflow(ctx, prov, None, idelivery(rng, prov, t, (A, m)), how, cv, None,
+                              "interactive-history:" + how, icases, dcases)
+            # this request carries no challenge: nothing of the other request of the history may stick to its code
+            if how in ("relogin", "maxage", "swap", "sso") and not prov.essential:
+                for cv in (None, EARLIER_V if how != "swap" else SWAP_V):
+                    run_iflow(ctx, prov, None, {"t": "front", "front": [None, None]}, how, cv, None,
+                              "interactive-history-no-pkce:" + how, icases, dcases)
+
+
+def rp_interactive_cases(ctx, iprovs, rng, icases, dcases):
+    """the pair of the library's RP add-on through the log-in page: the RP's own token request must be accepted"""
+    from idpyoidc.message.oauth2 import AuthorizationResponse
+    ent = make_rp(iprovs[0].server.context.cdb["client_1"]["client_secret"])
+    rctx = ent.get_context()
+    azs, tks = ent.get_service("authorization"), ent.get_service("accesstoken")
+    seq = 0
+    for method in ("S256", "S384", "S512"):
+        rctx.add_on["pkce"] = {"code_challenge_method": method, "code_challenge_length": rng.choice([43, 64, 128])}
+        for prov in iprovs:
+            for t in ("front", rng.choice(TRANSPORTS)):
+                seq += 1
+                state = "rpistate%d" % seq
+                areq = azs.construct_request({"state": state, "response_type": "code"}).to_dict()
+                v = rctx.cstate.get_set(state, claim=["code_verifier"]).get("code_verifier", "")
+                cc, ccm = areq.get("code_challenge"), areq.get("code_challenge_method")
+                d = idelivery(rng, prov, t, (cc, ccm))
+                rctx.cstate.update(state, AuthorizationResponse(code="placeholder", state=state))
+                treq = tks.construct_request(state=state).to_dict()
+                how = rng.choice(HOWS)
+                out = run_iflow(ctx, prov, None, d, how, treq.get("code_verifier"), None, "rp-interactive", icases, dcases,
+                                token_req=treq, note="pair of the library's RP (%s) through the log-in page" % method)
+                if ccm in prov.methods and out is not None and out[0] != "Tokens" and v != "":
+                    ctx.violation("rp-op-disagree",
+                                  "pair produced by the library's RP (method %r), delivered by %s, log-in page (%s): refused by "
+                                  "the library's provider (configured %r): %r" % (ccm, t, how, prov.methods, out),
+                                  {"delivery": d, "provider": prov.describe(), "rp_method": method, "interactive": {"how": how}})
+
+
+def interactive_random(ctx, iprovs, rng, icases, dcases, n):
+    pool_m = ALL + ["S1", ""]
+    for _ in range(n):
+        prov = rng.choice(iprovs)
+        t = rng.choice(TRANSPORTS + ("front", "front"))
+        vs = [rstr(rng, rng.choice([43, 44, 64]), rng.choice([UNRES, UNRES, UNRES + "å &=+%"])) for _ in range(2)]
+
+        def pair(i):
+            m = rng.choice(pool_m) if rng.random() < 0.25 else rng.choice(prov.methods)
+            c = ref_tr(m, vs[i]) if m in ALL else vs[i]
+            if c is None:
+                c = rstr(rng, 43)
+            return (rng.choice([c, c, c, None, "", vs[i]]), rng.choice([m, m, m, None, rng.choice(pool_m)]))
+        prot, front = pair(0), rng.choice([pair(1), (None, None), (None, None)])
+        d = idelivery(rng, prov, t, prot, front)
+        cv = rng.choice([vs[0], vs[0], vs[0], vs[1], None, "", prot[0], EARLIER_V, SWAP_V])
+        run_iflow(ctx, prov, rng.choice([None, None, True, False]), d, rng.choice(HOWS + ("sso",)), cv,
+                  rng.choice([None, None, "plain"]), "interactive-random", icases, dcases)
+
+
+ISPECS = [(None, True, True, "jinja"), (None, False, True, "form"), (["S256"], True, True, "form"),
+          (["S256"], False, True, "jinja"), (["plain", "S256"], True, True, "jinja"), (["S256", "S512"], False, True, "form"),
+          (None, True, False, "jinja"), (["plain", "S256"], False, False, "form")]
+
+
+def interactive_section(ctx, rng, icases, dcases, specs=None):
+    """providers with a log-in page, under a controlled clock (the page answered late, max_age)"""
+    import srv
+    import warnings
+    from idpyoidc.server.exception import OnlyForTestingWarning
+    warnings.filterwarnings("ignore", category=OnlyForTestingWarning)     # UserPassJinja2 says so on every page
+    clock = srv.Clock(start=int(time.time())).install()
+    try:
+        iprovs = []
+        for methods, essential, oidc, login in (specs or ISPECS):
+            p = IProv(srv, methods, essential, oidc, login)
+            p.clock = clock
+            if p.declares_pkce:
+                ctx.notes.append("the request class of a provider now DECLARES %r" % p.declares_pkce)
+            iprovs.append(p)
+        if specs is not None:
+            return iprovs, clock
+        interactive_matrix(ctx, iprovs, rng, icases, dcases)
+        interactive_histories(ctx, iprovs, rng, icases, dcases)
+        rp_interactive_cases(ctx, iprovs, rng, icases, dcases)
+        interactive_random(ctx, iprovs, rng, icases, dcases, 150 if ctx.quick else 8000)
+    finally:
+        if specs is None:
+            clock.uninstall()
+
+
+# ---------------------------------------------------------------- case files with shared string literals
+_LIT = re.compile(r'\(PS "[^"]*"\)|\[\d+(?:;\d+)*\]%N')
+
+
+def share_literals(texts):
+    """Elaborating string literals dominates coqc time and the same strings (parameter names, methods, a challenge in
+    the delivery / the page / the grant) recur: every distinct literal becomes one Definition of the file."""
+    names = {}
+
+    def sub(m):
+        lit = m.group(0)
+        if lit not in names:
+            names[lit] = "cs_%d" % len(names)
+        return names[lit]
+    out = [_LIT.sub(sub, t) for t in texts]
+    prelude = "".join("Definition %s : pystr := %s.\n" % (n, lit) for lit, n in names.items())
+    return prelude, out
+
+
+def check_cases_shared(ctx, imports, case_type, checker, cases, shard=400, label="cases", diag=None):
+    """engine.Ctx.coq_check_cases with the literals of every shard shared (same verdicts, same bookkeeping)"""
+    from concurrent.futures import ThreadPoolExecutor
+    jobs = []
+    for i in range(0, len(cases), shard):
+        part = cases[i:i + shard]
+        ctx.shard_seq += 1
+        name = "%s_%s_%03d" % (ctx.prop, label, ctx.shard_seq)
+        prelude, terms = share_literals([t for t, _ in part])
+        body = "%sDefinition cases : list (%s) := [\n%s\n].\nEval vm_compute in (bad_indices (%s) cases).\n" % (
+            prelude, case_type, ";\n".join(terms), checker)
+        jobs.append((name, body, part))
+
+    def run(job):
+        return job, ctx.coq_eval(job[0], imports, job[1])
+    with ThreadPoolExecutor(max_workers=min(E.NCPU, max(1, len(jobs)))) as ex:
+        results = list(ex.map(run, jobs))
+    bad = []
+    for (name, body, part), (rc, out, vals) in results:
+        if rc != 0 or not vals:
+            ctx.broken.append("correspondence shard %s does not evaluate: %s" % (name, out.strip()[-600:]))
+            continue
+        try:
+            idx = E.parse_nat_list(vals[-1])
+        except ValueError as e:
+            ctx.broken.append("correspondence shard %s: %s" % (name, e))
+            continue
+        ctx.traces += len(part)
+        dvals = {}
+        if idx and diag:
+            dbody = "".join("Eval vm_compute in (%s (%s)).\n" % (diag, part[k][0]) for k in idx[:5])
+            drc, dout, dv = ctx.coq_eval(name + "_diag", imports, dbody)
+            dvals = dict(zip(idx[:5], dv))
+        for k in idx:
+            rec = part[k][1]
+            bad.append(rec)
+            ctx.mismatch("model and implementation disagree (%s, %s[%d])" % (label, name, k), rec,
+                         model=dvals.get(k, part[k][0][:2000]))
+    return bad
+
+
 def build_providers():
     import srv
     provs = []
@@ -921,7 +1466,7 @@ def run(ctx):
     logging.getLogger("idpyoidc").setLevel(logging.CRITICAL)
     rng = ctx.rng
     provs = build_providers()
-    cases, rpcases, unres, dcases = [], [], [], []
+    cases, rpcases, unres, dcases, icases = [], [], [], [], []
     single_faults(ctx, provs, rng, cases)
     presence_table(ctx, provs, rng, cases)
     lengths_and_alphabets(ctx, provs, rng, cases)
@@ -932,9 +1477,11 @@ def run(ctx):
     transport_matrix(ctx, provs, rng, dcases)
     rp_transport_cases(ctx, provs, rng, dcases)
     transport_random(ctx, provs, rng, dcases, 400 if ctx.quick else 20000)
+    interactive_section(ctx, rng, icases, dcases)
     imp = ["Lib.Base", "Lib.PyStr", "Lib.PkceTy", "Gen.PkceTables", "Model.Pkce"]
-    ctx.coq_check_cases(imp, "flow_case", "chk_flow", cases, shard=400, label="flow", diag="flow_model")
-    ctx.coq_check_cases(imp, "dflow_case", "chk_dflow", dcases, shard=400, label="dflow", diag="dflow_model")
+    check_cases_shared(ctx, imp, "flow_case", "chk_flow", cases, shard=400, label="flow", diag="flow_model")
+    check_cases_shared(ctx, imp, "dflow_case", "chk_dflow", dcases, shard=400, label="dflow", diag="dflow_model")
+    check_cases_shared(ctx, imp, "iflow_case", "chk_iflow", icases, shard=200, label="iflow", diag="iflow_model")
     ctx.coq_check_cases(imp, "rp_case", "chk_rp", rpcases, shard=200, label="rp", diag="rp_model")
     ctx.coq_check_cases(imp, "pystr * bool", "chk_unreserved", unres, shard=200, label="unres")
 
@@ -942,6 +1489,25 @@ def run(ctx):
 def replay(ctx, rp):
     """Re-run the recorded flow (or, for a broken obligation, the generator with the recorded seed)."""
     case = rp.get("case") or {}
+    if "interactive" in case and "delivery" in case and "provider" in case:
+        p = case["provider"]
+        iprovs, clock = interactive_section(ctx, ctx.rng, [], [], specs=[(p["methods"], p["essential"], p.get("oidc", True),
+                                                                         p.get("login", "jinja"))])
+        try:
+            icases, dcases = [], []
+            out = run_iflow(ctx, iprovs[0], case.get("pkce_essential"), case["delivery"], case["interactive"]["how"],
+                            case.get("code_verifier"), case.get("token_code_challenge_method"), "replay", icases, dcases)
+        finally:
+            clock.uninstall()
+        for _, r in icases + dcases:
+            ctx.notes.append("replayed interactive flow (%s, post %s): outcome %r, query of the page %r, recorded in grant %r"
+                             % (r["interactive"]["how"], r["interactive"]["post"], r["outcome"], r.get("query_of_login_page"),
+                                r.get("recorded_in_grant")))
+        ctx.notes.append("recorded run: outcome %r, recorded in grant %r" % (case.get("outcome"), case.get("recorded_in_grant")))
+        imp = ["Lib.Base", "Lib.PyStr", "Lib.PkceTy", "Gen.PkceTables", "Model.Pkce"]
+        ctx.coq_check_cases(imp, "iflow_case", "chk_iflow", icases, label="replay", diag="iflow_model")
+        ctx.coq_check_cases(imp, "dflow_case", "chk_dflow", dcases, label="replay", diag="dflow_model")
+        return
     if "delivery" in case and "provider" in case:
         import srv
         p = case["provider"]
